@@ -116,7 +116,7 @@ class C15(core.Check):
         for i in range(n):
             kind = KINDS[i % len(KINDS)]
             heads = rng.choice([1, 2])
-            c = heads * rng.choice([1, 2, 3, 4]) if kind != 'ft' else heads * rng.choice([2, 3, 4])
+            c = heads * rng.choice([2, 3, 4]) if heads == 2 else rng.choice([3, 4, 5, 6])
             c = max(c, 2)
             if c % heads:
                 c += 1
